@@ -181,6 +181,7 @@ def run(ctx, rep):
     rep.extra['reader_sequences'] = sum(len(v) for v in rg.values())
     rep.extra['member_pairs'] = npairs
     run_closure_rule(P, rep)
+    run_expansion_rule(P, rep)
 
 
 # written member -> restored member, when the two sides legitimately use different names
@@ -420,3 +421,41 @@ def run_closure_rule(P, rep, rid='R-C10-4'):
                   'compared keys: %s; %d run-level emissions' % (keys, nem) if not viol else viol[0], function='state_write_thread', construct='run closure %s' % '/'.join(keys or ['?']))
     if n < 3:
         raise AnalysisBroken('state_write_thread: expected three run-length loops, recognised %d' % n)
+
+
+def run_expansion_rule(P, rep, rid='R-C10-4r'):
+    """reader side of a run: the decoded value is applied to every position of the run -- the store inside the per-position
+    loop is executed on every iteration (it is not control dependent on any test made inside the loop)"""
+    f = P.fn('state_read_content')
+    rep.rule(rid, 'reader: inside each run loop the per-position store (info_set / fs_allocate) is unconditional for the iteration', 3)
+    n = 0
+    for callee in ('info_set', 'fs_allocate'):
+        for c in f.calls(callee):
+            h = f.loop_of(c.block)
+            if h is None:
+                continue
+            body = f.loops[h]
+            # loops that consume a run count: a local is decremented in the body
+            dec = [i for i in f.all_insts() if i.block in body and i.op == 'store' and f.inst_of(i.ops[0]) is not None and f.inst_of(i.ops[0]).op == 'add' and f.const_of(f.inst_of(i.ops[0]).ops[1]) == -1]
+            if not dec:
+                continue
+            cond = []
+            for b in body:
+                if b == h or b == c.block:
+                    continue
+                t = f.term(b)
+                if t.op in ('br', 'switch') and ((t.op == 'br' and len(t.ops) == 3) or t.op == 'switch') and f.bdominates(b, c.block):
+                    outs = [s_ for s_ in f.succ[b]]
+                    # control dependent: some successor cannot reach the call within the iteration
+                    reachers = [s_ for s_ in outs if c.id in f.reach([f.blocks[s_][0]], stop={f.blocks[h][0].id}, include_start=True)]
+                    if len(reachers) != len(outs):
+                        # branches whose other side cannot return (decoding errors abort) do not count
+                        from .C09 import dead_blocks
+                        dead = dead_blocks(f)
+                        if all(s_ in dead for s_ in outs if s_ not in reachers):
+                            continue
+                        cond.append(f.expr(t.ops[0]))
+            n += 1
+            rep.check(not cond, rid, '%s at line %s runs for every position of the run' % (callee, c.line), c.loc(), 'unconditional' if not cond else 'executed only when %s' % cond, function='state_read_content', construct='%s unconditional' % callee)
+    if n < 3:
+        raise AnalysisBroken('state_read_content: run loops of the reader not recognised (%d stores)' % n)
